@@ -377,18 +377,54 @@ func marshalStructWithMap[T any](s *T, mapField string) ([]byte, error) {
 // Here jsonNames also returns fields from embedded structs, hence this function
 // handles embedded structs as well.
 func unmarshalStructWithMap[T any](data []byte, v *T, mapField string) error {
+	// Split the object into the keys that are struct fields and the rest.
+	var raw map[string]json.RawMessage
+	if err := json.Unmarshal(data, &raw); err != nil {
+		return err
+	}
+	names := jsonNames(reflect.TypeFor[T]())
+	var m map[string]any
+	structData := data
+	filter := false
+	for k, rv := range raw {
+		if names[k] {
+			continue
+		}
+		var x any
+		if err := json.Unmarshal(rv, &x); err != nil {
+			return err
+		}
+		if m == nil {
+			m = map[string]any{}
+		}
+		m[k] = x
+		// encoding/json matches object keys to struct fields ignoring case, but
+		// JSON Schema keywords are case-sensitive: a key that is not exactly a
+		// field's name belongs in the map and must be kept away from the struct.
+		if !filter {
+			for n := range names {
+				if strings.EqualFold(k, n) {
+					filter = true
+					break
+				}
+			}
+		}
+	}
+	if filter {
+		fields := make(map[string]json.RawMessage, len(raw))
+		for k, rv := range raw {
+			if names[k] {
+				fields[k] = rv
+			}
+		}
+		var err error
+		if structData, err = json.Marshal(fields); err != nil {
+			return err
+		}
+	}
 	// Unmarshal into the struct, ignoring unknown fields.
-	if err := json.Unmarshal(data, v); err != nil {
+	if err := json.Unmarshal(structData, v); err != nil {
 		return err
-	}
-	// Unmarshal into the map.
-	m := map[string]any{}
-	if err := json.Unmarshal(data, &m); err != nil {
-		return err
-	}
-	// Delete from the map the fields of the struct.
-	for n := range jsonNames(reflect.TypeFor[T]()) {
-		delete(m, n)
 	}
 	if len(m) != 0 {
 		reflect.ValueOf(v).Elem().FieldByName(mapField).Set(reflect.ValueOf(m))
